@@ -701,6 +701,19 @@ def run_real(case: SysCase, configure=None, after_request=None, on_reads=None, s
     sim = build_simulation(case, tbs, E5, configure)
     outs = []
     problems = []
+    held = []        # (request index, the array handed out by calculate / get_array, its values at that moment)
+
+    def rewritten():
+        """an array already handed out keeps its values whatever is written to the store afterwards (a later set_input or
+        computed value REPLACES the stored array, it does not overwrite the buffer earlier results and trace values share)"""
+        for (idx, arr, text) in held:
+            try:
+                now = canon_array(arr)
+            except Exception:
+                now = "?"
+            if now != text:
+                return idx
+        return None
     for r in case.reqs:
         if r[0] == "arm":
             ctx.armed.add(r[1])
@@ -734,6 +747,8 @@ def run_real(case: SysCase, configure=None, after_request=None, on_reads=None, s
                     if r[0] == "get":
                         a = sim.get_array(f"v{r[1]}", request_period(case, len(outs), r[2]))
                         o = "g:none" if a is None else "g:" + canon_array(a)
+                        if a is not None:
+                            held.append((len(outs), a, canon_array(a)))
                     elif r[0] == "del":
                         sim.delete_arrays(f"v{r[1]}", None if r[2] == "*" else request_period(case, len(outs), r[2]))
                         o = "-"
@@ -745,6 +760,8 @@ def run_real(case: SysCase, configure=None, after_request=None, on_reads=None, s
                 o = classify(exc)
             if sim.tracer.stack or sim.invalidated_caches:
                 o += "#STATE"
+            if r[0] == "set" and rewritten() is not None:
+                o += f"#ALIAS:{rewritten()}"
             outs.append(o)
             if after_request:
                 after_request(sim, r, o)
@@ -768,6 +785,8 @@ def run_real(case: SysCase, configure=None, after_request=None, on_reads=None, s
             else:
                 res = sim.calculate(f"v{v}", p) if kind == "calc" else sim.calculate_add(f"v{v}", p)
                 o = "ok:" + canon_array(res)
+                if kind == "calc":
+                    held.append((len(outs), res, canon_array(res)))
             if (kind in ("add", "div") or okind == 2) and isinstance(res, np.ndarray) and res.dtype.kind in "iuf":
                 # the array handed out by calculate_add / calculate_divide is the caller's (a sum, a quotient): overwriting
                 # it must not reach any stored value (a total accumulated INTO the first sub-period's cached array, a
@@ -792,6 +811,8 @@ def run_real(case: SysCase, configure=None, after_request=None, on_reads=None, s
         outs.append(o)
         if after_request:
             after_request(sim, r, o)
+    if outs and rewritten() is not None and not any("#ALIAS" in o for o in outs):
+        outs[-1] += f"#ALIAS:{rewritten()}"
     try:
         known = ",".join(f"{k}={v}" for k, v in known_entries(case, sim))
     except Exception as exc:     # a stored value that cannot be read back
